@@ -7,6 +7,7 @@ import (
 	"encoding/hex"
 	"encoding/json"
 	"fmt"
+	"strconv"
 	"strings"
 	"time"
 
@@ -237,16 +238,63 @@ func vfGenValidTok(rt *rapid.T, c vfJWTCfg, now int64) vfTok {
 	if rapid.Bool().Draw(rt, "scope") {
 		t.Claims["scope"] = "read write"
 	}
-	if d := rapid.SampledFrom([]int64{0, 1, 60, 86400 * 365}).Draw(rt, "expIn"); d != 0 {
-		t.Claims["exp"] = now + d
+	// exp strictly after now (now+0.5 counts), nbf at or before now, iat in the past; each written
+	// as an integer, fractional or exponent-form JSON number (RFC 7519 NumericDate)
+	switch d := rapid.SampledFrom([]int64{-1, 0, 1, 2, 60, 86400 * 365}).Draw(rt, "expIn"); {
+	case d == 0:
+		t.Claims["exp"] = vfTimeLit(rt, now, "frac", "exp") // now + fraction
+	case d > 0:
+		t.Claims["exp"] = vfTimeLit(rt, now+d, "any", "exp")
 	}
-	if d := rapid.SampledFrom([]int64{-1, 0, 1, 3600}).Draw(rt, "nbfAgo"); d >= 0 {
-		t.Claims["nbf"] = now - d // nbf == now is valid (RFC 7519: not before)
+	switch d := rapid.SampledFrom([]int64{-1, 0, 1, 2, 3600}).Draw(rt, "nbfAgo"); {
+	case d == 0:
+		t.Claims["nbf"] = vfTimeLit(rt, now, "whole", "nbf") // nbf == now is valid (RFC 7519: not before)
+	case d > 0:
+		t.Claims["nbf"] = vfTimeLit(rt, now-d, "any", "nbf") // at most now-1+0.999999
 	}
 	if rapid.IntRange(0, 2).Draw(rt, "iat") == 0 {
-		t.Claims["iat"] = now - rapid.SampledFrom([]int64{0, 5, 86400}).Draw(rt, "iatAgo")
+		t.Claims["iat"] = vfTimeLit(rt, now-rapid.SampledFrom([]int64{1, 5, 86400}).Draw(rt, "iatAgo"), "any", "iat")
 	}
 	return t
+}
+
+// vfTimeLit writes a NumericDate as literal JSON text: base as an integer, as base.0, in exponent
+// form, or base plus a fraction in (0,1) in plain or exponent form. mode: "whole" (value == base),
+// "frac" (value in (base, base+1)), "any". The issuer serialises exactly this text.
+func vfTimeLit(rt *rapid.T, base int64, mode, label string) interface{} {
+	d := strconv.FormatInt(base, 10)
+	whole := []string{d, d, d + ".0", d + ".000000", d + "e0", d + "0e-1", d + "E+0"}
+	if len(d) == 10 {
+		whole = append(whole, d[:1]+"."+d[1:]+"e9", d[:1]+"."+d[1:]+"E+9", d[:2]+"."+d[2:]+"e+08")
+	}
+	frac := []string{d + ".5", d + ".000001", d + ".999999", d + "5e-1", d + ".25e0"}
+	if len(d) == 10 {
+		frac = append(frac, d[:1]+"."+d[1:]+"5e9", d[:1]+"."+d[1:]+"000001E9")
+	}
+	var opts []string
+	switch mode {
+	case "whole":
+		opts = whole
+	case "frac":
+		opts = frac
+	default:
+		opts = append(append([]string(nil), whole...), frac...)
+	}
+	lit := rapid.SampledFrom(opts).Draw(rt, label+"Literal")
+	if lit == d {
+		return base
+	}
+	return json.RawMessage(lit)
+}
+
+// vfOddClaim: a value no NumericDate may have, or one at the edge of the number range
+// (robustness class: never a panic, acceptance left open).
+func vfOddClaim(rt *rapid.T, now int64) interface{} {
+	return rapid.SampledFrom([]interface{}{
+		json.RawMessage(`"123"`), json.RawMessage(`"` + strconv.FormatInt(now-100, 10) + `"`), json.RawMessage(`null`), json.RawMessage(`true`),
+		json.RawMessage(`[]`), json.RawMessage(`{}`), json.RawMessage(`0`), json.RawMessage(`0.0`), json.RawMessage(`-1`), json.RawMessage(`1e30`),
+		json.RawMessage(`1e-30`), json.RawMessage(`9223372036854775808`), json.RawMessage(`""`),
+	}).Draw(rt, "oddClaim")
 }
 
 func vfOtherSecret(rt *rapid.T, s []byte) []byte {
